@@ -25,6 +25,7 @@ class AllocGen:
         self.views_on = views
         self.unused: set[str] = set()
         self.joins: list[str] = []
+        self.unranked: list[str] = []
 
     def fresh(self, p):
         self.n += 1
@@ -33,7 +34,7 @@ class AllocGen:
     def use(self):
         self.tag += 1
         k = 1 if self.r.random() < 0.8 else 2
-        bufs = [self.r.choice(self.refs) for _ in range(k)]
+        bufs = [self.r.choice(self.refs + self.unranked) for _ in range(k)]
         # make sure every alloc gets at least one use (an unused alloc makes MiniMallocate raise StopIteration)
         if self.unused:
             bufs[0] = sorted(self.unused)[0]
@@ -95,8 +96,15 @@ class AllocGen:
             self.site_of[nm] = self.site_of[src]
             return {"k": "view", "name": nm, "src": src, "off": off, "len": ln}
         if k == "cast":
-            src = r.choice(self.refs)
+            src = r.choice([x for x in self.refs if "*" not in self.types[x]])
             nm = self.fresh("w")
+            if r.random() < 0.3 and "strided" not in self.types[src]:
+                # memref.cast to an unranked memref (what is handed to a debug / library call): only used, never viewed again
+                el = self.types[src].split("x")[1].split(",")[0]
+                self.types[nm] = f'memref<*x{el}, {self.types[src].rsplit(", ", 1)[1]}'
+                self.site_of[nm] = self.site_of[src]
+                self.unranked.append(nm)
+                return {"k": "cast", "name": nm, "src": src, "unranked": True}
             self.types[nm] = self.types[src]
             self.refs.append(nm)
             self.site_of[nm] = self.site_of[src]
@@ -117,6 +125,10 @@ class AllocGen:
             self.callee = gast
         while self.unused:
             body.append(self.use())
+        for u in self.unranked:
+            if self.r.random() < 0.7:
+                self.tag += 1
+                body.append({"k": "use", "tag": self.tag, "bufs": [u], "sites": [self.site_of[u]]})
         for j in self.joins:
             # a joined value is used once more at the very end, after every later allocation
             if self.r.random() < 0.7:
@@ -153,6 +165,8 @@ def emit(ast, p=(0, 0), fname="f", wrap=True) -> str:
                 e(ind, f'{s["name"]} = memref.alloc() {{alignment = {s["align"]} : i64, vsite = {s["site"]} : i64}} : {T[s["name"]]}')
             elif k == "view":
                 e(ind, f'{s["name"]} = memref.subview {s["src"]}[{s["off"]}][{s["len"]}][1] : {T[s["src"]]} to {T[s["name"]]}')
+            elif k == "cast" and s.get("unranked"):
+                e(ind, f'{s["name"]} = "memref.cast"({s["src"]}) : ({T[s["src"]]}) -> {T[s["name"]]}')
             elif k == "cast":
                 e(ind, f'{s["name"]} = builtin.unrealized_conversion_cast {s["src"]} : {T[s["src"]]} to {T[s["name"]]}')
             elif k == "select":
